@@ -76,7 +76,7 @@ CLAIMED = {
         design="DESIGN.md §4 C20"),
     "C02": dict(
         technique="static analysis: table rules over the clang AST of UnitSystem.cpp/Units.hpp (reciprocal tables, dimensional formulas, compile-time constants vs an independent physical table, normal form of the conversion formulas) plus a scan of every compiled-in keyword's dimension strings",
-        text="Decides, for the conversion factors as written: to_/from_ tables of all five systems are mutual reciprocals entry by entry (230 pairs), every measure has the same frozen dimensional formula in METRIC/FIELD/LAB/PVT-M, offsets exist only for temperature, init<SYS> wires tables and registers the same 31 dimension names with the system's own constants, every one of the 163 constants equals its physical definition (1e-12), to_si/from_si/Dimension::convert* have the affine normal forms that make them inverse, composite dimensions are product/quotient, every dimension string of the 1184 compiled-in keywords resolves in all four systems, and the output conversions are mirror images. Not decided: that each keyword item carries the physically right dimension; end-to-end equality of SI values between two decks.",
+        text="Decides, for the conversion factors as written: to_/from_ tables of all five systems are mutual reciprocals entry by entry (230 pairs), every measure has the same frozen dimensional formula in METRIC/FIELD/LAB/PVT-M, offsets exist only for temperature, init<SYS> wires tables and registers the same 31 dimension names with the system's own constants, every one of the 163 constants equals its physical definition (1e-12), to_si/from_si/Dimension::convert* have the affine normal forms that make them inverse, composite dimensions are product/quotient, every dimension string of the 1184 compiled-in keywords resolves in all four systems, the output conversions are mirror images, and the three in-place deck-unit<->SI conversions of DeckItem choose the default vs active dimension for the same set of value statuses and are mutually inverse. Not decided: that each keyword item carries the physically right dimension; end-to-end equality of SI values between two decks.",
         note="Trusted: clang's compile-time evaluation of the constants; tables/measure_dims.json and tables/physical_units.json (independent oracle written from SI definitions and the Eclipse unit conventions).",
         design="DESIGN.md §4 C02"),
     "C09": dict(
